@@ -3,11 +3,14 @@
 and refresh the 'checks that fire' part of its meta.json.  usage: tools/reeval_seeded.py [<id regex>]"""
 import json, os, re, subprocess, sys
 VERIF = os.path.dirname(os.path.dirname(os.path.abspath(__file__)))
-pat = re.compile(sys.argv[1] if len(sys.argv) > 1 else ".")
+args = [a for a in sys.argv[1:] if not a.startswith("--")]
+pat = re.compile(args[0] if args else ".")
+si, sn = (int(x) for x in next((a.split("=")[1] for a in sys.argv[1:] if a.startswith("--shard=")), "0/1").split("/"))   # --shard=i/n with VK_EVAL_TREE=<own worktree>
 missed = []
-for d in sorted(os.listdir(os.path.join(VERIF, "seeded"))):
+todo = [d for d in sorted(os.listdir(os.path.join(VERIF, "seeded"))) if pat.search(d) and os.path.exists(os.path.join(VERIF, "seeded", d, "meta.json"))]
+for k, d in enumerate(todo):
     mp = os.path.join(VERIF, "seeded", d, "meta.json")
-    if not pat.search(d) or not os.path.exists(mp):
+    if k % sn != si:
         continue
     ev = subprocess.run(f"cd {VERIF} && /venv/bin/python tools/eval_patch.py seeded/{d}/patch.diff", shell=True, text=True, capture_output=True)
     try:
